@@ -2,7 +2,7 @@
    Statements only; proofs are in Proofs/IsoLaws.v (on the invariant of
    Proofs/HistInv*.v). Fault-free execution. *)
 From Sessions Require Import Model.Base Model.Sess Model.Hist Proofs.SessDefs
-  Proofs.HistInv Proofs.HistInv2 Proofs.HistInv3 Proofs.IsoLaws.
+  Proofs.HistInv Proofs.HistInv2 Proofs.HistInv3 Proofs.IsoLaws Proofs.C01Spec.
 
 (* Per call: a Start that returns a session returns either a session created by
    this call (next ordinal, empty data, no user, its live cookie sent), or the
@@ -24,5 +24,23 @@ Theorem C01_isolation_hist_partial :
   forall c hs r, Forall ff_hop hs -> rq_plan r = [] -> step_isolated (reach c hs) r.
 Proof. exact hist_isolation. Qed.
 
+(* The history-level statement, safety half (a ghost per-client specification:
+   the data and user ID each client last wrote, evaluated on the observations
+   of the run; Proofs/C01Spec.v): every session a request of a cookie-following
+   client returns holds exactly what that client last wrote, or was created in
+   that step, empty. NOT PROVED in general (it needs write-through, C09, and the
+   rotation laws, C04/C05, lifted to the jar invariant); tested on model runs
+   (C01Spec.C01_safety_tests). What is proved is C01_isolation_step and
+   C01_isolation_hist_partial above. The liveness half ("a still valid session is
+   returned") is not formalised here. *)
+Definition C01_statement : Prop := C01_safety_statement.
+
+(* Admitting GetAndDelete in handler scripts the statement is false, with the
+   cache switched off and no cache loss at all: the deletion is never saved
+   (defect D6), the next request serves the deleted value again. *)
+Theorem C01_with_getdel_refuted : ~ C01_safety_with_getdel.
+Proof. exact C01_getdel_refuted. Qed.
+
 Print Assumptions C01_isolation_step.
 Print Assumptions C01_isolation_hist_partial.
+Print Assumptions C01_with_getdel_refuted.
